@@ -964,6 +964,25 @@ pub fn main_with(props: Vec<Prop>) -> ! {
         std::process::exit(replay(prop, path, &known));
     }
 
+    // code under test may print to stdout (the bundled examples do); stdout carries the VIOLATION /
+    // KNOWN-FINDING protocol, so it is parked on /dev/null while cases run and restored for the report
+    let saved_stdout = unsafe {
+        let _ = std::io::stdout().flush();
+        let saved = libc::dup(1);
+        let null = libc::open(c"/dev/null".as_ptr(), libc::O_WRONLY);
+        if saved >= 0 && null >= 0 {
+            libc::dup2(null, 1);
+            libc::close(null);
+        }
+        saved
+    };
+    let restore_stdout = move || unsafe {
+        let _ = std::io::stdout().flush();
+        if saved_stdout >= 0 {
+            libc::dup2(saved_stdout, 1);
+        }
+    };
+
     let mut total = Agg::default();
     // replay tier: every committed replay file of this property is re-run first
     let replay_dir = format!("{}/replays/{}", opts.verif_dir, prop.id);
@@ -1039,6 +1058,7 @@ pub fn main_with(props: Vec<Prop>) -> ! {
     }
 
     // report
+    restore_stdout();
     let mut exit = 0;
     for (key, (what, n)) in &total.known {
         println!("KNOWN-FINDING: property={} {} [key={} hits={}]", prop.id, what, key, n);
